@@ -28,6 +28,7 @@ import CoreDhcp.Props.C13
 import CoreDhcp.Props.C15
 import CoreDhcp.Props.System
 import CoreDhcp.Props.GenAlloc4
+import CoreDhcp.Props.GenHandlers4
 open CoreDhcp
 #print axioms C20_offset_exact
 #print axioms C20_offset_symm
@@ -183,3 +184,16 @@ open CoreDhcp
 #print axioms GEN_a4_free_eq
 #print axioms GEN_a4_allocate_eq
 #print axioms GEN_a4_allocate_eq'
+#print axioms GEN_h4_mtu_eq
+#print axioms GEN_h4_netmask_eq
+#print axioms GEN_h4_router_eq
+#print axioms GEN_h4_dns_eq
+#print axioms GEN_h4_leasetime_eq
+#print axioms GEN_h4_searchdomains_eq
+#print axioms GEN_h4_staticroute_eq
+#print axioms GEN_h4_ipv6only_eq
+#print axioms GEN_h4_autoconfigure_eq
+#print axioms GEN_h4_sleep_eq
+#print axioms GEN_h4_serverid_eq
+#print axioms GEN_h4_nbp_eq
+#print axioms GEN_h4_nbp_unset
